@@ -505,6 +505,13 @@ func (s *Service) buildMetaData(msg service.DIDCommMsgMap, direction messageDire
 // startInternalListener listens to messages in go channel for callback messages from clients.
 func (s *Service) startInternalListener() {
 	for msg := range s.callbacks {
+		// the thread may have moved on while this message was waiting for the application's decision
+		if err := s.checkStillApplicable(msg); err != nil {
+			logger.Errorf("ignoring callback for msgID=%s : %s", msg.Msg.ID(), err)
+
+			continue
+		}
+
 		// if no error do handle
 		if msg.err == nil {
 			msg.err = s.handle(msg)
@@ -523,6 +530,37 @@ func (s *Service) startInternalListener() {
 			logger.Errorf("listener handle: %s", err)
 		}
 	}
+}
+
+// checkStillApplicable re-checks a parked message against the state persisted NOW. The transition was checked when
+// the message arrived, but other messages of the same thread may have been handled since: executing the callback
+// anyway would move the thread off its state graph (e.g. leave 'done', or send the reply twice).
+func (s *Service) checkStillApplicable(msg *metaData) error {
+	if msg.state == nil || isNoOp(msg.state) || msg.Msg == nil {
+		return nil
+	}
+
+	data, err := s.currentInternalData(msg.PIID, msg.ProtocolVersion)
+	if err != nil {
+		return nil //nolint:nilerr // the regular handling reports storage problems
+	}
+
+	current := stateFromName(data.StateName, getVersion(msg.Msg.Type()))
+
+	if msg.err != nil {
+		// the application stopped the protocol: a thread that already reached a final state stays there
+		if current.Name() == StateNameDone || current.Name() == StateNameAbandoned {
+			return fmt.Errorf("thread already is in state %s", current.Name())
+		}
+
+		return nil
+	}
+
+	if !current.CanTransitionTo(msg.state) {
+		return fmt.Errorf("invalid state transition: %s -> %s", current.Name(), msg.state.Name())
+	}
+
+	return nil
 }
 
 func isNoOp(s state) bool {
